@@ -124,7 +124,7 @@ def run(ctx):
         judge('ASan, FFT and Lagrange-domain entry points of %s' % be, 'fft opcodes 0-11', rc, out, err, {'tool': 'asan-fft', 'backend': be, 'lines': flines})
     # ---- B: memcheck on the AVX2 build (assembly paths)
     vlibd = vlib.build_lib('vg'); vexe = vlib.build_harness('mem_drv.cpp', vlibd, 'spqlios-fma', 'vg')
-    vjobs = [['small %d' % n for n in range(1, 14)] + ['small 500', 'small 1023'], [life_line((0, 3, 1, 2, 10, 8, 2), 1)], [life_line((0, 7, 2, 3, 7, 8, 2), 0)], [life_line((0, 8, 1, 16, 2, 4, 4), 1), life_line((0, 1, 1, 1, 16, 2, 2), 0)]]
+    vjobs = [['small %d' % n for n in range(1, 14)] + ['small 500', 'small 1023'], ['threadfirst'], [life_line((0, 3, 1, 2, 10, 8, 2), 1)], [life_line((0, 7, 2, 3, 7, 8, 2), 0)], [life_line((0, 8, 1, 16, 2, 4, 4), 1), life_line((0, 1, 1, 1, 16, 2, 2), 0)]]
     if thorough: vjobs += [[life_line((0, 1025, 1, 3, 7, 8, 2), 1)], [life_line((128, 0, 0, 0, 0, 0, 0), 0)], [life_line((0, 9, 2, 2, 10, 8, 2), 0), life_line((0, 3, 1, 4, 8, 31, 1), 1)]]
     def vg(lines):
         try:
